@@ -23,10 +23,13 @@ def main():
     sys.path.append(os.path.join(VERIF, '.deps'))
     sys.path.insert(0, VERIF)
     # the code under test always comes from the working tree
-    sys.path.insert(0, '/repo/src')
+    # (SYMX_DEV_REPO: development aid only - points the run at a scratch worktree and, together with SYMX_DEV_OUT,
+    # keeps its evidence / replay files out of /verif; no registered command sets it)
+    repo_src = os.path.join(os.environ.get('SYMX_DEV_REPO', '/repo'), 'src')
+    sys.path.insert(0, repo_src)
     import emsarray
-    if not os.path.abspath(emsarray.__file__).startswith('/repo/src/'):
-        print(f'emsarray imported from {emsarray.__file__}, not /repo/src', file=sys.stderr)
+    if not os.path.abspath(emsarray.__file__).startswith(repo_src + '/'):
+        print(f'emsarray imported from {emsarray.__file__}, not {repo_src}', file=sys.stderr)
         sys.exit(2)
     # netCDF4/HDF5 is not thread safe and emsarray reads multi-file datasets with lock=False;
     # like the repository's own test-suite (tests/conftest.py: disable_dask_threads) every check
